@@ -496,6 +496,16 @@ def r13_7(ctx):
                 for sb, st in f.terms():
                     if st["k"] == "switch" and f.dominates(sb, b) and sb != b and from_kind(st["discr"]) and st.get("dty") != "bool":
                         guard = True
+            if not guard:
+                # the kind test as a predicate of the raw value (`raw.accepts(&index)`): a bool method of the crate that reads
+                # get_type(), whose true edge dominates the store
+                for cb, ct in f.calls():
+                    g = prog.fns.get(ct["callee"])
+                    if g is None or g.crate != "sonic_rs" or g.output != "bool" or not f.dominates(cb, b) or not any(callee_is(tt, "get_type") for bb, tt in g.calls()):
+                        continue
+                    e = bool_switch_edges(f, ct["dest"][0])
+                    if e and e[0] != e[1] and (f.dominates(e[0], b) and b not in f.reachable_from(e[1], avoid={e[0]})):
+                        guard = True
             owner = prog.fns.get(f.parent_fn, f) if f.parent_fn else f
             seen[short(owner.id)] += 1
             ctx.ob("R13.7", f"convert-under-kind-test:{short(owner.id)}#{seen[short(owner.id)]}", guard, f.loc(s.get("ln")),
